@@ -86,7 +86,10 @@ K1_BOUND = 4.0  # |df/dr|/delta: (x - x^3) <= 0.385 for the cubic, times ten
 K_NOISE = 1.0e-10  # root-solver noise relative to delta
 
 # ---- lattice Q ---------------------------------------------------------------------------
-GEOMS = ["lsn", "usn", "cdn", "udn", "ldn", "udn2"]
+# udn1 / ldn1: almost balanced double nulls gridded as connected (nx_inter_sep=0) although their
+# X-points lie on slightly different flux surfaces: every segment must still meet at psi_sep[0]
+GEOMS = ["lsn", "usn", "cdn", "udn", "ldn", "udn2", "udn1", "ldn1"]
+CONNECTED = ("cdn", "udn1", "ldn1")
 SIGMAS = [1.0, -1.0]
 NXVEC = {
     "quick": [dict(nx_core=1, nx_sol=1, nx_inter_sep=1), dict(nx_core=3, nx_sol=4, nx_inter_sep=2)],
@@ -454,7 +457,7 @@ def _options(cfg, nxscale=1, nx_override=None):
     for k, v in nxv.items():
         if k == "nx_inter_sep" and single:
             continue
-        if k == "nx_inter_sep" and geom == "cdn":
+        if k == "nx_inter_sep" and geom in CONNECTED:
             o[k] = 0
             continue
         o[k] = int(v) * nxscale
